@@ -15,4 +15,10 @@ CHECKS = {
        'periodic matrices against wrap-modulo-size construction, Dirichlet/Neumann matrices and boundary vectors against an independent closure construction and '
        'A p + b = p^(d) for all monomials within the closure exactness degree, 1-3 D as Kronecker sums. Exploration level.',
   note='Trusted: fractions arithmetic; tolerance 1e-9..1e-8 relative to row magnitude. In dim>=2 only one constant boundary value per side can be represented by the API and is what is tested. Two defects found and fixed (F0, F13).'),
+ 'C02': dict(
+  technique='property-based testing: Hypothesis-generated node states/preconditioners/operators against a dense global (kron + solve) reference model of the sweep; reflection over all Runge-Kutta classes',
+  text='A real Level is built through Step(description) with fixture linear problems (dense A, optional forcing, mass matrix, two-operator splittings); node values are arbitrary with consistent f, tau random. '
+       'One update_nodes()/integrate()/compute_end_point() of generic_implicit, explicit, imex_1st_order, imex_1st_order_mass, multi_implicit and every RungeKutta/RungeKuttaIMEX subclass is compared with the algebraic iteration; '
+       'QDelta matrices are cross-checked against an independent qmat construction, closed forms and the k-refresh rule. Exploration level.',
+  note='Trusted: numpy dense solves; qmat as the definition of the named preconditioners (cross-checked with closed forms for IE/EE/PIC/IEpar/MIN-SR-NS). Ill-conditioned node systems (cond>1e8) are discarded and counted. Known finding F10 (LDU with left end node).'),
 }
